@@ -4,6 +4,7 @@ import (
 	"bytes"
 	"fmt"
 	"os"
+	"os/signal"
 	"path/filepath"
 	"regexp"
 	"runtime"
@@ -31,6 +32,15 @@ func acChild(args []string) int {
 		return 4
 	}
 	fs := filesys.NewDirFs(root)
+	if len(args) > 4 {
+		// file-size limit: a write(2) that crosses it is cut short (no error), the next one fails with EFBIG
+		var lim uint64
+		fmt.Sscan(args[4], &lim)
+		signal.Ignore(syscall.SIGXFSZ)
+		if err := syscall.Setrlimit(syscall.RLIMIT_FSIZE, &syscall.Rlimit{Cur: lim, Max: lim}); err != nil {
+			return 5
+		}
+	}
 	marker("op 0 atomiccreate")
 	panicked := catchPanic(func() { fs.AtomicCreate(dir, name, data) })
 	if panicked {
@@ -136,7 +146,7 @@ func C13(c *ev.Ctx) {
 	c.Level = "fault_enumeration"
 	c.Assume("a crash is SIGKILL delivered by strace at the entry of a chosen system call of the operation (the call does not execute); power loss is not observable",
 		"a fault is one system call of the operation made to fail with an errno by strace",
-		"the kernel executes write(2) of the whole buffer in one call, so multi-chunk writes are modelled (AtomicCreate.tla) but not forced on the real code",
+		"the kernel executes write(2) of the whole buffer in one call on an unconstrained file; short writes are forced with a file-size limit (RLIMIT_FSIZE) in the child process: the write that crosses the limit is cut short, the next one fails",
 		"concurrent creators are interleaved at the verif hooks between the system calls of DirFs.AtomicCreate")
 	dir, err := c.SpecDir("spec-fs", "filesys")
 	if err != nil {
@@ -318,6 +328,43 @@ func C13(c *ev.Ctx) {
 		}
 	}
 	c.Sample(map[string]any{"kind": "syscall trace of one AtomicCreate", "events": sysEvs[:min(8, len(sysEvs))]})
+
+	// (2b) short writes: a file-size limit in the middle of the data cuts write(2) short without an error
+	{
+		self, _ := os.Executable()
+		for _, st := range setups {
+			for _, tc := range []struct{ size, limit int }{{5000, 1234}, {5000, 4999}, {5000, 5000}, {9000, 4096}, {3, 1}, {70000, 65536}} {
+				if err := prepareRoot(root, "d", "f", st.s); err != nil {
+					c.Inconclusive("prepare: %v", err)
+					break
+				}
+				data := acData('k', tc.size)
+				_ = os.WriteFile(dataFile, data, 0644)
+				out, _ := execOutput(self, "-child", "ac-child", root, "d", "f", dataFile, fmt.Sprint(tc.limit))
+				returned := strings.Contains(out, "RET 0")
+				got, exists := readDst()
+				evaluations++
+				points[fmt.Sprintf("fsize-limit/%s/%d/%d", st.name, tc.size, tc.limit)] = true
+				bad := ""
+				switch {
+				case !returned && !strings.Contains(out, "PANIC 0"):
+					c.Inconclusive("ac-child with a file-size limit: unexpected output %q", firstLines(out, 3))
+					continue
+				case returned && (!exists || !bytes.Equal(got, data)):
+					bad = fmt.Sprintf("AtomicCreate returned but d/f does not contain exactly data (%d bytes, exists=%v)", len(got), exists)
+				case tc.limit < tc.size && returned:
+					bad = "AtomicCreate returned although the data cannot have been written completely"
+				case !returned && st.s.oldContent == nil && exists:
+					bad = fmt.Sprintf("AtomicCreate failed but d/f appeared (%d bytes)", len(got))
+				case !returned && st.s.oldContent != nil && (!exists || !bytes.Equal(got, st.s.oldContent)):
+					bad = fmt.Sprintf("AtomicCreate failed but d/f no longer has its old content (%d bytes, exists=%v)", len(got), exists)
+				}
+				if bad != "" {
+					c.Violation("atomiccreate.short-write", fmt.Sprintf("setup %s, %d bytes of data, file-size limit %d (write(2) is cut short at the limit): %s", st.name, tc.size, tc.limit, bad), nil)
+				}
+			}
+		}
+	}
 
 	// (3) concurrent creators and readers on DirFs, interleaved at the hooks
 	acConcurrency(c)
